@@ -19,7 +19,7 @@ MANIFEST = {
             'compared on every run with the real mpctools on every n = 0..70: values and per-element depths.',
     'note': 'Trusted: Coq kernel + vm_compute; model of Python list slicing/assignment in Tools.v tied by the exhaustive '
             'n <= 70 comparison (free-semigroup operation, which distinguishes every non-equivalent bracketing/ordering, for '
-            'n <= 24 in Coq and all n in Python; 2x2 matrices mod 1000003 for all n). f is assumed total and pure. The '
+            'n <= 12 (24 thorough) in Coq and all n in Python; 2x2 matrices mod 1000003 for all n). f is assumed total and pure. The '
             'documented exact depths for n = 2^k (Sklansky k, Brent-Kung max(2k-2, k)) are checked on the implementation '
             'and the model by computation, not proved; the proved Brent-Kung bound is 2 ceil(log2 n). Default method choice '
             'is a one-line model (default_method_bk) compared for n around 32 with no_prss on/off.',
@@ -102,6 +102,10 @@ def run(ctx):
     NV = mpctools._no_value
     methods = ['Brent-Kung', 'Sklansky']
     exprs, meta = [], []
+    # Coq model: every n without initial; with initial around powers of two and at the ends (quick tier);
+    # free-semigroup operation for small n (its literals grow quadratically)
+    init_ns = set(range(0, NMAX + 1)) if ctx.tier == 'thorough' else {0, 1, 2, 3, 4, 5, 6, 7, 8, 9, 15, 16, 17, 31, 32, 33, 63, 64, 65, NMAX - 1, NMAX}
+    FREE_MAX = ctx.n(12, 24)
 
     def sym(i):
         return chr(0x100 + i)
@@ -138,14 +142,14 @@ def run(ctx):
                 else:
                     rd = None
                 ctx.case(key, nontrivial=N >= 3, kind='reduce/' + opname)
-                if opname == 'mat':
+                if opname == 'mat' and (not with_init or n in init_ns):
                     exprs.append('oeq eq4 (reduce mm %s %s) %s' % (m4list(xs), optm4(init if with_init else None),
                                                                    'None' if got == 'ERR:Type' else '(Some %s)' % m4(got)))
                     meta.append((key, 'value'))
                     if not with_init:
                         exprs.append('option_map snd (reduce (fdepth Z.add) (leaves (repeat 0%%Z %d)) None)' % n)
                         meta.append((key, 'depth', rd))
-                elif n <= 24:
+                elif opname == 'concat' and n <= FREE_MAX:
                     ints = [[i + 1] for i in range(n)]
                     exprs.append('oeq natl_eq (reduce (@app nat) %s %s) %s' % (
                         '[' + '; '.join(natlist(a) for a in ints) + ']', '(Some [0])' if with_init else 'None',
@@ -178,13 +182,13 @@ def run(ctx):
                                           dict(key, depth=max(depths), doc_depth=bound, calls=cnt[0], doc_calls=calls))
                     ctx.case(key, nontrivial=N >= 3, kind='accumulate/%s/%s' % (method, opname))
                     bk = blit(method == 'Brent-Kung')
-                    if opname == 'mat':
+                    if opname == 'mat' and (not with_init or n in init_ns):
                         exprs.append('leq eq4 (accumulate mm d4 %s %s %s) %s' % (bk, m4list(xs), optm4(init if with_init else None), m4list(got)))
                         meta.append((key, 'value'))
                         if not with_init:
                             exprs.append('map snd (accumulate (fdepth Z.add) (0%%Z, 0%%nat) %s (leaves (repeat 0%%Z %d)) None)' % (bk, n))
                             meta.append((key, 'depths', depths))
-                    elif n <= 24:
+                    elif opname == 'concat' and n <= FREE_MAX:
                         ints = [[i + 1] for i in range(n)]
                         exprs.append('leq natl_eq (accumulate (@app nat) [] %s %s %s) %s' % (
                             bk, '[' + '; '.join(natlist(a) for a in ints) + ']', '(Some [0])' if with_init else 'None',
@@ -230,7 +234,7 @@ def run(ctx):
 
     ctx.log('%d cases on the implementation; evaluating %d model expressions in Coq' % (ctx.evaluations, len(exprs)))
     if ok:
-        res = ctx.coq_eval(['MPyC.Tools'], exprs, preamble=PREAMBLE, chunk=60)
+        res = ctx.coq_eval(['MPyC.Tools'], exprs, preamble=PREAMBLE, chunk=45)
         mism = 0
         for r, mt in zip(res, meta):
             key, what = mt[0], mt[1]
